@@ -19,14 +19,22 @@ package main
 // outputs of their producing encode call (optionally with a truncated image chunk).
 //
 // Walks (one long-lived process, so every walk is also a suffix of a much longer history):
-//   quick    — all ordered triples of the 14 configurations' encodes (de Bruijn walk), and
-//              per grid an Euler circuit through ALL ordered pairs of the grid's 60 calls
-//              (14 configurations × the grid's two sizes: 28 encodes, their 28 decodes, 4 decodes
+//   quick    — all ordered triples of the 15 configurations' encodes (de Bruijn walk), and
+//              per grid an Euler circuit through ALL ordered pairs of the grid's 64 calls
+//              (15 configurations × the grid's two sizes: 30 encodes, their 30 decodes, 4 decodes
 //              of truncated files), plus a random mixed walk with animations, header queries,
 //              truncated files and remuxing; per grid an Euler circuit through all ordered pairs of
 //              the serial-import configurations (hImportConfigs: RGB->YUV dithering and the image
 //              types generic wrapper / NRGBA64 / Paletted, each as a picture with alpha and its
 //              opaque twin) × the grid's two sizes;
+//              ROW-PIPELINED lossy encoder: two more grids with >= 4 macroblock rows (32x64 / 30x63,
+//              16x80 / 9x101 = one macroblock column), all ordered pairs of the 9 lossy configurations
+//              (two of them flat pictures with Partitions 3 / 1) × two sizes + lossless encodes + decodes;
+//              macroblock-row thresholds as (noise, flat) encode pairs and colour-count pictures;
+//              decode steps on SYNTHETIC streams (gen_vp8.go frames with the conditionally present
+//              header parts absent — segment data, segment map, filter deltas, probability updates,
+//              skip probability — on every grid; gen_vp8l.go streams with a colour-indexing transform
+//              whose indices exceed the palette), all ordered pairs with decodes of ordinary files;
 //   thorough — additionally de Bruijn walks through all ordered TRIPLES of 24 configurations
 //              (two size assignments), all ordered triples of the serial-import calls per grid,
 //              and 20 000 random histories of length ≤ 12.
@@ -92,6 +100,15 @@ type hcall struct {
 	Src   *hcall `json:"src,omitempty"` // producer of the bytes to decode (its fresh reference output)
 	Cut   int    `json:"cut,omitempty"` // dec: per-mille of the image chunk's payload kept; 0 = intact
 	Tag   string `json:"tag,omitempty"` // configuration name (informational)
+	// enc: Colors = n > 0: the picture is GenColorCountImage(W, H, n) (exactly n colours; colour-count thresholds)
+	Colors int `json:"colors,omitempty"`
+	// syn: a synthetic codec stream of the random writers gen_vp8.go / gen_vp8l.go wrapped as a simple
+	// file (producer of a dec step, never an encoder call of /repo): Syn = "vp8" | "vp8l" | "vp8l-narrow",
+	// drawn from NewRNG(ISeed, K); vp8: W x H = frame size, Mod = header parts forced present / absent
+	// (histSynVP8)
+	Syn string `json:"syn,omitempty"`
+	Mod string `json:"mod,omitempty"`
+	K   uint64 `json:"k,omitempty"`
 }
 
 func (c *hcall) key() string {
@@ -118,6 +135,11 @@ func (c *hcall) codec() string {
 		return "anim"
 	case "animdec":
 		return "anim-dec"
+	case "syn":
+		if strings.HasPrefix(c.Syn, "vp8l") {
+			return "lossless"
+		}
+		return "lossy"
 	}
 	return c.Op
 }
@@ -242,15 +264,17 @@ func cutImageChunk(data []byte, permille int) []byte {
 }
 
 // generator images are inputs only; they are built once per (size, class, seed)
-var histImgCache = map[[6]uint64]*image.NRGBA{}
+var histImgCache = map[[7]uint64]*image.NRGBA{}
 
 func histImage(c *hcall) *image.NRGBA {
-	k := [6]uint64{uint64(c.W), uint64(c.H), uint64(c.Cls), uint64(c.Acls), c.ISeed, uint64(c.Cheap)}
+	k := [7]uint64{uint64(c.W), uint64(c.H), uint64(c.Cls), uint64(c.Acls), c.ISeed, uint64(c.Cheap), uint64(c.Colors)}
 	if im, ok := histImgCache[k]; ok {
 		return im
 	}
 	var im *image.NRGBA
-	if c.Cheap > 0 {
+	if c.Colors > 0 {
+		im = GenColorCountImage(NewRNG(c.ISeed, 0), c.W, c.H, c.Colors)
+	} else if c.Cheap > 0 {
 		im = GenCheapImage(NewRNG(c.ISeed, 0), c.W, c.H, (c.Cheap-1)%NumCheapClasses, c.Acls)
 	} else {
 		im = GenImage(NewRNG(c.ISeed, 0), c.W, c.H, c.Cls, c.Acls)
@@ -269,7 +293,7 @@ func histTyped(c *hcall) image.Image {
 	if c.IType == "" {
 		return src
 	}
-	k := fmt.Sprintf("%d|%d|%d|%d|%d|%s|%d", c.W, c.H, c.Cls, c.Acls, c.ISeed, c.IType, c.Cheap)
+	k := fmt.Sprintf("%d|%d|%d|%d|%d|%s|%d|%d", c.W, c.H, c.Cls, c.Acls, c.ISeed, c.IType, c.Cheap, c.Colors)
 	if im, ok := histTypedCache[k]; ok {
 		return im
 	}
@@ -331,6 +355,13 @@ func execCall(c *hcall, input []byte) *hres {
 				return "err"
 			}
 			res.out = buf.Bytes()
+			return "ok " + digest(res.out)
+		case "syn":
+			b := histSynBytes(c)
+			if b == nil {
+				return "bad-call"
+			}
+			res.out = b
 			return "ok " + digest(res.out)
 		case "dec":
 			im, err := webp.Decode(bytes.NewReader(input))
@@ -488,6 +519,13 @@ func (hr *histRunner) input(c *hcall) ([]byte, error) {
 	if c.Src == nil {
 		return nil, nil
 	}
+	if c.Src.Op == "syn" { // a pure function of the literal call: no producer process needed
+		b := histSynBytes(c.Src)
+		if b == nil {
+			return nil, fmt.Errorf("bad synthetic-stream call %s", c.Src.key())
+		}
+		return cutImageChunk(b, c.Cut), nil
+	}
 	r := hr.ref(c.Src)
 	if r.err != nil {
 		return nil, r.err
@@ -588,6 +626,9 @@ func (hr *histRunner) prefetch(calls []*hcall) error {
 	seen := map[string]bool{}
 	var add func(c *hcall)
 	add = func(c *hcall) {
+		if c.Op == "syn" {
+			return
+		}
 		if c.Src != nil {
 			add(c.Src)
 		}
@@ -595,7 +636,7 @@ func (hr *histRunner) prefetch(calls []*hcall) error {
 			return
 		}
 		seen[c.key()] = true
-		if c.Src == nil {
+		if c.Src == nil || c.Src.Op == "syn" {
 			level0 = append(level0, c)
 		} else {
 			level1 = append(level1, c)
@@ -700,7 +741,7 @@ func hOpt(f func(o *webp.EncoderOptions)) func() *webp.EncoderOptions {
 	return func() *webp.EncoderOptions { o := webp.DefaultOptions(); f(o); return o }
 }
 
-// the first 14 are the quick tier's; all 24 the thorough tier's
+// the first hNQuick = 15 are the quick tier's; all 25 the thorough tier's
 var hConfigs = []hConfig{
 	{"ly-default", hOpt(func(o *webp.EncoderOptions) {}), ClsPhoto, AlphaNone, ""},
 	{"ly-q50m0s1", hOpt(func(o *webp.EncoderOptions) { o.Quality, o.Method, o.Segments = 50, 0, 1 }), ClsNoise, AlphaNone, ""},
@@ -718,6 +759,7 @@ var hConfigs = []hConfig{
 	{"ll-q95m4", hOpt(func(o *webp.EncoderOptions) { o.Lossless, o.Quality = true, 95 }), ClsPhoto, AlphaNone, ""},
 	{"ly-q75m4-sharp-p1", hOpt(func(o *webp.EncoderOptions) { o.UseSharpYUV, o.Partitions = true, 1 }), ClsPhoto, AlphaNone, ""},
 	{"ll-q90m4-exact-few", hOpt(func(o *webp.EncoderOptions) { o.Lossless, o.Quality, o.Exact = true, 90, true }), ClsGradient, AlphaFewLevels, ""},
+	{"ly-q30m3p1-flat", hOpt(func(o *webp.EncoderOptions) { o.Quality, o.Method, o.Partitions = 30, 3, 1 }), ClsFlat, AlphaNone, ""},
 	// thorough only
 	{"ly-q100m6", hOpt(func(o *webp.EncoderOptions) { o.Quality, o.Method = 100, 6 }), ClsNoise, AlphaNone, ""},
 	{"ly-q75m3-s3-sharp7", hOpt(func(o *webp.EncoderOptions) { o.Method, o.Segments, o.FilterSharpness = 3, 3, 7 }), ClsPhoto, AlphaNone, ""},
@@ -755,6 +797,20 @@ var hGrids = [][2][2]int{
 	{{48, 16}, {17, 33}},
 }
 
+// hRowGrids: grids with >= 4 macroblock rows — the lossy encoder takes its ROW-PIPELINED path there
+// (useParallel: mbH >= 4 && Method >= 3; thresholds.go "4 mbrows"): equal macroblock grid 2x4, and a
+// single macroblock column with 5 / 7 rows.  Quick tier: a pair walk over the lossy configurations
+// (hRowConfigIdx) per grid; thorough tier: the full pair walk of section A as well.
+var hRowGrids = [][2][2]int{
+	{{32, 64}, {30, 63}},
+	{{16, 80}, {9, 101}},
+}
+
+const hNQuick = 15
+
+// the lossy configurations of the quick tier (textured, flat, alpha, partitions 0 / 1 / 3, methods 0..6)
+var hRowConfigIdx = []int{0, 1, 2, 3, 4, 5, 6, 12, 14}
+
 func (cf *hConfig) enc(seed uint64, w, h int) *hcall {
 	return &hcall{Op: "enc", W: w, H: h, Cls: cf.cls, Acls: cf.acls, ISeed: seed*1000 + uint64(w*64+h), IType: cf.itype, Opts: encOpts(cf.opts()), Tag: cf.tag}
 }
@@ -783,6 +839,207 @@ func hThresholdEncs(rep *Report, k int) []*hcall {
 		}
 		out = append(out, c)
 		CountThreshold(rep, tc)
+	}
+	return out
+}
+
+// hThresholdPairs: the count-type thresholds of the history suite.
+//   - k macroblock-row thresholds (3 / 4 / 6 rows: segment-map smoothing, serial vs ROW-PIPELINED lossy
+//     encoder, worker count) each as a (noise, flat-or-sparse) PAIR of lossy encodes with equal options
+//     (Method >= 3, Partitions 1 or 3) on one size: the second picture reuses the pooled encoder of the
+//     first and has next to no tokens of its own;
+//   - nc colour-count pictures (GenColorCountImage around 2 / 4 / 16 / 192 / 256 colours), lossless.
+func hThresholdPairs(rep *Report, k, nc int) (pairs [][2]*hcall, colours []*hcall) {
+	tcs := DrawThresholdCases(rep.Seed, 0x1159, k, ThresholdFilter{Units: []string{"mbrows"}})
+	for i, tc := range tcs {
+		o := hOpt(func(o *webp.EncoderOptions) { o.Quality, o.Method, o.Partitions = 60, 3, 1 })()
+		if i%2 == 1 {
+			o = hOpt(func(o *webp.EncoderOptions) { o.Quality, o.Method, o.Partitions = 75, 4, 3 })()
+		}
+		noise := &hcall{Op: "enc", W: tc.W, H: tc.H, Cls: ClsNoise, Acls: AlphaNone, ISeed: rep.Seed*1000 + 5700 + uint64(i), Opts: encOpts(o),
+			Tag: "threshold-" + tc.String() + "-noise"}
+		flat := &hcall{Op: "enc", W: tc.W, H: tc.H, Cheap: 1 + []int{CheapFlat, CheapSparse}[(int(rep.Seed)+i)%2], Acls: AlphaNone,
+			ISeed: rep.Seed*1000 + 5750 + uint64(i), Opts: encOpts(o), Tag: "threshold-" + tc.String() + "-flat"}
+		pairs = append(pairs, [2]*hcall{noise, flat})
+		CountThreshold(rep, tc)
+	}
+	for i, cc := range DrawCountCases(rep.Seed, 0x1158, nc, "colors", 2, 300) {
+		o := hOpt(func(o *webp.EncoderOptions) { o.Lossless, o.Quality, o.Method = true, 90, 6 })()
+		if i%2 == 1 {
+			o = hOpt(func(o *webp.EncoderOptions) { o.Lossless, o.Quality, o.Method = true, 40, 2 })()
+		}
+		colours = append(colours, &hcall{Op: "enc", W: 40, H: 30, Colors: cc.N, ISeed: rep.Seed*1000 + 5800 + uint64(i), Opts: encOpts(o),
+			Tag: "threshold-" + cc.String()})
+		CountCount(rep, cc)
+	}
+	return pairs, colours
+}
+
+// ---------- synthetic streams (decode steps on files this library's encoder never writes) ----------
+
+// hSynVP8Mods: which conditionally present parts of the VP8 frame header are forced present / absent:
+//
+//	seg1 / seg0   segmentation enabled (fresh random segment header and map) / disabled
+//	data0         update_segment_feature_data = 0: NO segment quantiser / filter-strength data
+//	map0          update_mb_segmentation_map = 0: no tree probabilities, no per-macroblock ids
+//	lfupd0        loop_filter_adj_enable = 1 with mode_ref_lf_delta_update = 0: no filter deltas
+//	upd0          no coefficient-probability update
+//	skip0         mb_no_coeff_skip = 0: no skip probability, no per-macroblock skip flag
+//
+// A decoder object that served an ordinary file before (4 segments with data, deltas, updates, skip
+// probability) must treat every absent part as the format's default, not as "keep what I have".
+var hSynVP8Mods = []string{"seg1,data0", "seg1,data0,map0,lfupd0,upd0,skip0", "seg1,map0,skip0", "seg0,lfupd0,upd0"}
+
+var (
+	histSynMu    sync.Mutex
+	histSynCache = map[string][]byte{}
+)
+
+// histSynBytes: the file a syn call stands for — a pure function of the call.
+func histSynBytes(c *hcall) []byte {
+	k := c.key()
+	histSynMu.Lock()
+	b, ok := histSynCache[k]
+	histSynMu.Unlock()
+	if ok {
+		return b
+	}
+	switch c.Syn {
+	case "vp8":
+		if p := histSynVP8(c); p != nil {
+			b = riff(chunk("VP8 ", p.Emit()))
+		}
+	case "vp8l":
+		pl, _ := SynVP8L(NewRNG(c.ISeed, c.K))
+		b = riff(chunk("VP8L", pl))
+	case "vp8l-narrow":
+		pl, _ := SynVP8LNarrow(NewRNG(c.ISeed, c.K))
+		b = riff(chunk("VP8L", pl))
+	}
+	histSynMu.Lock()
+	histSynCache[k] = b
+	histSynMu.Unlock()
+	return b
+}
+
+// histSynVP8: a plan of the random VP8 writer (gen_vp8.go, SynVP8Plan drawn from NewRNG(ISeed, K)) put on
+// the frame size W x H (the macroblock plans are independent of each other: they are repeated
+// cyclically to fill the grid), version 0, no scaling bits, no partition padding, with the header parts
+// named in Mod forced.
+func histSynVP8(c *hcall) *vp8Plan {
+	if c.W < 1 || c.H < 1 || c.W > 4096 || c.H > 4096 {
+		return nil
+	}
+	p := SynVP8Plan(NewRNG(c.ISeed, c.K), "quick")
+	r := NewRNG(c.ISeed, c.K^0x5151_0000_0000)
+	src := p.mbs
+	p.w, p.h = c.W, c.H
+	p.mbs = make([]vp8MBPlan, p.mbW()*p.mbH())
+	for i := range p.mbs {
+		p.mbs[i] = src[i%len(src)]
+	}
+	p.version, p.xs, p.ys, p.padPart, p.colorSpace = 0, 0, 0, -1, false
+	for _, m := range strings.Split(c.Mod, ",") {
+		switch m {
+		case "":
+		case "seg1":
+			p.segEnabled, p.segMap, p.segData, p.segAbs = true, true, true, r.Bool()
+			for i := 0; i < 4; i++ {
+				p.segQPresent[i], p.segLPresent[i] = r.Chance(5, 6), r.Chance(5, 6)
+				if p.segAbs {
+					p.segQ[i], p.segL[i] = r.Intn(128), r.Intn(64)
+				} else {
+					p.segQ[i], p.segL[i] = r.Intn(41)-20, r.Intn(41)-20
+				}
+			}
+			for i := 0; i < 3; i++ {
+				p.segProbPresent[i], p.segProb[i] = r.Chance(3, 4), r.Intn(256)
+			}
+			for i := range p.mbs {
+				p.mbs[i].segment = r.Intn(4)
+			}
+		case "seg0":
+			p.segEnabled = false
+		case "data0":
+			p.segData = false
+		case "map0":
+			p.segMap = false
+		case "lfupd0":
+			p.lfDelta, p.lfUpdate = true, false
+		case "upd0":
+			p.probUpd = map[int]int{}
+		case "skip0":
+			p.skipEnabled = false
+			for i := range p.mbs {
+				p.mbs[i].skip = false
+			}
+		default:
+			return nil
+		}
+	}
+	return p
+}
+
+// histSynVP8Coded: per-mille of the plan's macroblocks that carry at least one non-zero coefficient
+// (a stale quantiser shows only on those).
+func histSynVP8Coded(p *vp8Plan) int {
+	n := 0
+	for i := range p.mbs {
+		m := &p.mbs[i]
+		if m.skip {
+			continue
+		}
+		nz := false
+		for _, t := range m.tokens {
+			for _, v := range t {
+				if v != 0 {
+					nz = true
+				}
+			}
+		}
+		if nz {
+			n++
+		}
+	}
+	return n * 1000 / maxi(len(p.mbs), 1)
+}
+
+// hSynVP8Dec: a dec step on a synthetic VP8 frame of size w x h with the header parts of mod; the
+// writer's draw index K is the first (from salt*64) whose plan has coefficients in at least half of
+// its macroblocks and a non-zero filter level.
+func hSynVP8Dec(seed uint64, w, h int, mod string, salt uint64) *hcall {
+	src := &hcall{Op: "syn", Syn: "vp8", W: w, H: h, Mod: mod, ISeed: seed*1000 + 880, Tag: "synvp8:" + mod}
+	for k := uint64(0); k < 64; k++ {
+		src.K = 0x5100_0000 + salt*64 + k
+		if p := histSynVP8(src); p != nil && histSynVP8Coded(p) >= 500 && p.level > 0 {
+			break
+		}
+	}
+	return &hcall{Op: "dec", Src: src}
+}
+
+// hSynVP8LDecs: n dec steps on streams of the random VP8L writer (gen_vp8l.go; two of three from
+// SynVP8L, every third from SynVP8LNarrow) that contain a colour-indexing transform ("ci" in the
+// writer's description) and no deliberate defect.  Their pixel data is drawn without regard to the
+// palette size, so indices beyond the palette arise by themselves.
+func hSynVP8LDecs(seed uint64, n int) []*hcall {
+	var out []*hcall
+	k := uint64(0x5200_0000)
+	for len(out) < n && k < 0x5200_0000+4000 {
+		kind := "vp8l"
+		if len(out)%3 == 2 {
+			kind = "vp8l-narrow"
+		}
+		var d string
+		if kind == "vp8l" {
+			_, d = SynVP8L(NewRNG(seed*1000+881, k))
+		} else {
+			_, d = SynVP8LNarrow(NewRNG(seed*1000+881, k))
+		}
+		if strings.Contains(d, "ci") && !strings.Contains(d, "defect=") {
+			out = append(out, &hcall{Op: "dec", Src: &hcall{Op: "syn", Syn: kind, ISeed: seed*1000 + 881, K: k, Tag: "syn" + kind + ":" + strings.SplitN(d, " ", 2)[0]}})
+		}
+		k++
 	}
 	return out
 }
@@ -980,6 +1237,9 @@ func histClass(last *hcall, hist []*hcall, lines []string) string {
 			cls = "serial-import"
 		}
 	case "dec", "animdec", "cfg":
+		if last.Src != nil && last.Src.Op == "syn" {
+			cls = "synthetic-stream"
+		}
 		for i, h := range hist {
 			if (h.Op == "dec" || h.Op == "animdec") && i < len(lines) && !strings.HasPrefix(lines[i], "ok") {
 				cls = "after-error"
@@ -1133,7 +1393,7 @@ func suiteHistory(rep *Report) error {
 	}
 	defer hr.close()
 	thorough := rep.Tier == "thorough"
-	nq := 14
+	nq := hNQuick
 	sigDone := map[string]int{}
 	t0 := time.Now()
 
@@ -1144,7 +1404,11 @@ func suiteHistory(rep *Report) error {
 
 	// A. per grid: an Euler circuit through ALL ordered pairs of the grid's calls —
 	//    14 configurations × 2 sizes encodes, their 28 decodes, and 4 decodes of truncated files
-	for gi, g := range hGrids {
+	pairGrids := append([][2][2]int{}, hGrids...)
+	if thorough {
+		pairGrids = append(pairGrids, hRowGrids...)
+	}
+	for gi, g := range pairGrids {
 		var calls []*hcall
 		for ci := 0; ci < nq; ci++ {
 			for _, sz := range g {
@@ -1172,8 +1436,123 @@ func suiteHistory(rep *Report) error {
 		rep.CountN("pairs-covered", len(calls)*len(calls))
 	}
 
+	// A2. the ROW-PIPELINED lossy encoder (>= 4 macroblock rows and Method >= 3): per grid of hRowGrids an
+	//     Euler circuit through ALL ordered pairs of {the 9 lossy quick configurations (textured / flat,
+	//     Partitions 0 / 1 / 3, Methods 0..6, alpha) x the grid's two sizes, 2 lossless encodes, the
+	//     decodes of three of the lossy configurations' files per size}: every flat picture follows
+	//     every textured one on the pooled encoder of its macroblock grid, and decoded pictures whose
+	//     width is a multiple of 16 are followed by decodes on an equal or smaller grid
+	for gi, g := range hRowGrids {
+		var calls []*hcall
+		for _, ci := range hRowConfigIdx {
+			for _, sz := range g {
+				calls = append(calls, hConfigs[ci].enc(rep.Seed, sz[0], sz[1]))
+			}
+		}
+		decs := histDecCalls(calls[:6])
+		calls = append(calls, hConfigs[7].enc(rep.Seed, g[0][0], g[0][1]), hConfigs[9].enc(rep.Seed, g[1][0], g[1][1]))
+		calls = append(calls, decs...)
+		if err := hr.prefetch(calls); err != nil {
+			return err
+		}
+		idx := eulerPairs(len(calls))
+		seq := make([]*hcall, len(idx))
+		for i, k := range idx {
+			seq[i] = calls[k]
+		}
+		budget := 12 * time.Second
+		if thorough {
+			budget = 0
+		}
+		rep.CountN("walk:rowpipe-pairs", hr.walk(fmt.Sprintf("rowpipe-pairs-grid%d", gi), seq, budget, sigDone))
+		rep.CountN("rowpipe-pairs-covered", len(calls)*len(calls))
+		rep.Count(fmt.Sprintf("grid:%dx%d+%dx%d:mbrows>=4", g[0][0], g[0][1], g[1][0], g[1][1]))
+	}
+
+	// A3. threshold pairs: macroblock-row thresholds as (noise, flat) pairs of lossy encodes with
+	//     Partitions > 0, and colour-count pictures — all ordered pairs
+	thrPairs, thrColours := hThresholdPairs(rep, 2, 2)
+	{
+		var calls []*hcall
+		for _, pr := range thrPairs {
+			calls = append(calls, pr[0], pr[1])
+		}
+		calls = append(calls, thrColours...)
+		if err := hr.prefetch(calls); err != nil {
+			return err
+		}
+		idx := eulerPairs(len(calls))
+		seq := make([]*hcall, len(idx))
+		for i, k := range idx {
+			seq[i] = calls[k]
+		}
+		budget := 6 * time.Second
+		if thorough {
+			budget = 0
+		}
+		rep.CountN("walk:threshold-pairs", hr.walk("threshold-pairs", seq, budget, sigDone))
+	}
+
+	// A4. decode steps on SYNTHETIC streams.  (a) per grid (hGrids and hRowGrids): all ordered pairs of
+	//     {decodes of five ordinary lossy files (4 segments, 1 segment, 2 segments, no filter, alpha) x
+	//     the grid's two sizes, decodes of synthetic VP8 frames of the same two sizes with every
+	//     conditionally present header part absent in turn (hSynVP8Mods)}; (b) all ordered pairs of
+	//     {10 synthetic VP8L streams with a colour-indexing transform, decodes of larger noisy /
+	//     palette / photo lossless files}.  Oracle as everywhere: the result (planes digest or error
+	//     class) equals that of the same decode as the first call of a fresh process.
+	synGrids := append(append([][2][2]int{}, hGrids...), hRowGrids...)
+	for gi, g := range synGrids {
+		var calls []*hcall
+		for _, ci := range []int{0, 1, 5, 4, 2} {
+			for _, sz := range g {
+				calls = append(calls, &hcall{Op: "dec", Src: hConfigs[ci].enc(rep.Seed, sz[0], sz[1])})
+			}
+		}
+		for si, sz := range g {
+			for mi, mod := range hSynVP8Mods {
+				calls = append(calls, hSynVP8Dec(rep.Seed, sz[0], sz[1], mod, uint64(gi*16+si*8+mi)))
+				rep.Count("syn-vp8:" + mod)
+			}
+		}
+		if err := hr.prefetch(calls); err != nil {
+			return err
+		}
+		idx := eulerPairs(len(calls))
+		seq := make([]*hcall, len(idx))
+		for i, k := range idx {
+			seq[i] = calls[k]
+		}
+		budget := 5 * time.Second
+		if thorough {
+			budget = 0
+		}
+		rep.CountN("walk:syn-dec", hr.walk(fmt.Sprintf("syn-vp8-dec-grid%d", gi), seq, budget, sigDone))
+	}
+	{
+		calls := hSynVP8LDecs(rep.Seed, 10)
+		rep.CountN("syn-vp8l:colour-indexing", len(calls))
+		for _, e := range []*hcall{hConfigs[10].enc(rep.Seed, 64, 48), hConfigs[10].enc(rep.Seed, 32, 64), hConfigs[10].enc(rep.Seed, 30, 31),
+			hConfigs[9].enc(rep.Seed, 64, 48), hConfigs[7].enc(rep.Seed, 32, 32)} {
+			calls = append(calls, &hcall{Op: "dec", Src: e})
+		}
+		if err := hr.prefetch(calls); err != nil {
+			return err
+		}
+		idx := eulerPairs(len(calls))
+		seq := make([]*hcall, len(idx))
+		for i, k := range idx {
+			seq[i] = calls[k]
+		}
+		budget := 5 * time.Second
+		if thorough {
+			budget = 0
+		}
+		rep.CountN("walk:syn-dec", hr.walk("syn-vp8l-dec", seq, budget, sigDone))
+	}
+
 	// B. mixed walk: encodes, decodes, truncated files, header queries, animations, remux — random order
 	thrEncs := hThresholdEncs(rep, 3)
+	thrEncs = append(thrEncs, thrColours...)
 	{
 		var pool []*hcall
 		r := NewRNG(rep.Seed, 5000)
@@ -1195,6 +1574,11 @@ func suiteHistory(rep *Report) error {
 			pool = append(pool, nilEnc, nilEnc) // drawn twice as often
 		}
 		pool = append(pool, thrEncs...)
+		for _, pr := range thrPairs {
+			pool = append(pool, pr[0], pr[1])
+		}
+		pool = append(pool, hSynVP8Dec(rep.Seed, 32, 32, hSynVP8Mods[1], 900), hSynVP8Dec(rep.Seed, 19, 17, hSynVP8Mods[0], 901))
+		pool = append(pool, hSynVP8LDecs(rep.Seed, 2)...)
 		if err := hr.prefetch(pool); err != nil {
 			return err
 		}
@@ -1356,7 +1740,7 @@ func suiteHistory(rep *Report) error {
 		rep.CountN("random-histories", nh)
 	}
 
-	rep.Rule = "calls are webp.Encode (24 option sets over quality/method/segments/partitions/SNS/filter/alpha/sharp/target, lossy and lossless, and Encode with NIL options - in the pair walks, the mixed walk and a walk through all ordered pairs of {6 animation encodes incl. one-frame and lossless ones, 3 nil-option encodes, 2 explicit ones, 2 threshold-size encodes}) on generator images (plus 3 pictures per run on threshold-crossing sizes of thresholds.go with cheap content, buckets threshold:*) of sizes sharing a macroblock grid, larger-then-smaller and of different shape, webp.Decode/DecodeConfig/GetFeatures of the fresh outputs (intact and with a truncated image chunk), animation encode/decode and remux; lossy encodes on the serial import path (RGB->YUV dithering; image types generic wrapper, NRGBA64, Paletted) as alpha/opaque twins, all ordered pairs per macroblock grid; every call of every walk (all ordered pairs per grid; thorough: all ordered triples and 20000 random histories ≤ 12) is compared with the same call run first in a fresh process, and earlier results are re-hashed after every call. Distinct = distinct (walk, call, two predecessors) contexts."
+	rep.Rule = "calls are webp.Encode (25 option sets over quality/method/segments/partitions/SNS/filter/alpha/sharp/target, lossy and lossless, two of them flat pictures with Partitions 3 / Partitions 1 Method 3 Quality 30, and Encode with NIL options - in the pair walks, the mixed walk and a walk through all ordered pairs of {6 animation encodes incl. one-frame and lossless ones, 3 nil-option encodes, 2 explicit ones, 2 threshold-size encodes}) on generator images (plus per run 3 pictures on threshold-crossing sizes of thresholds.go with cheap content, 2 macroblock-row thresholds (3 / 4 / 6 rows) as (noise, flat-or-sparse) PAIRS of lossy encodes with Partitions 1 / 3 and Method 3 / 4, and 2 colour-count pictures (GenColorCountImage around 2 / 4 / 16 / 192 / 256 colours, lossless): buckets threshold:*) of sizes sharing a macroblock grid, larger-then-smaller and of different shape (grids 32x32/30x31, 64x48/19x17, 48x16/17x33 and, for the row-pipelined lossy encoder = at least 4 macroblock rows and Method >= 3, 32x64/30x63 and 16x80/9x101), webp.Decode/DecodeConfig/GetFeatures of the fresh outputs (intact and with a truncated image chunk), animation encode/decode and remux; lossy encodes on the serial import path (RGB->YUV dithering; image types generic wrapper, NRGBA64, Paletted) as alpha/opaque twins, all ordered pairs per macroblock grid; decode steps on SYNTHETIC streams wrapped as simple files: per grid 8 VP8 frames of the random writer gen_vp8.go on the grid's two sizes with the conditionally present header parts forced absent (segmentation on without segment data / without map / filter deltas enabled without update / no probability updates / no skip probability) in all ordered pairs with decodes of five ordinary lossy files of the same sizes, and 10 VP8L streams of gen_vp8l.go with a colour-indexing transform (indices beyond the palette occur) in all ordered pairs with decodes of larger noisy / palette / photo lossless files; every call of every walk (all ordered pairs per grid; thorough: all ordered triples and 20000 random histories ≤ 12) is compared with the same call run first in a fresh process (encodes: output bytes; decodes: plane digest or error class), and the last 12 results returned earlier (decoded pictures, among them widths that are multiples of 16 followed by decodes on an equal or smaller macroblock grid) are re-hashed after every call. Distinct = distinct (walk, call, two predecessors) contexts."
 	rep.Sample(map[string]any{"walk": "pairs-enc-grid0", "first_calls": []string{hConfigs[0].enc(rep.Seed, 32, 32).short(), hConfigs[1].enc(rep.Seed, 30, 31).short()}})
 	rep.Extra["reference_processes"] = hr.child
 	rep.Extra["shrink_s"] = hr.shrinkSpent.Seconds()
